@@ -20,6 +20,7 @@ package yang
 
 import (
 	"fmt"
+	"sort"
 	"sync"
 )
 
@@ -359,6 +360,14 @@ func (ms *Modules) Process() []error {
 	for _, m := range ms.SubModules {
 		mods = append(mods, m)
 	}
+	// Visit the modules in a fixed order so that the outcome of conflicting
+	// augments does not depend on map iteration order.
+	sort.SliceStable(mods, func(i, j int) bool {
+		if mods[i].FullName() != mods[j].FullName() {
+			return mods[i].FullName() < mods[j].FullName()
+		}
+		return mods[i].Kind() < mods[j].Kind()
+	})
 	for len(mods) > 0 {
 		var processed int
 		for i := 0; i < len(mods); {
